@@ -39,8 +39,8 @@ func (C20) Info() core.Info {
 			"DFS callbacks decline by vertex identity (a pure function of the vertex)",
 			"TopoShortestPath is compared only on single-rooted acyclic graphs, as the statement says",
 		},
-		Probes: []string{"c20_dfs_runs", "c20_dfs_decliner_reported", "c20_kahn_acyclic", "c20_kahn_cyclic_panicked", "c20_scc_multi", "c20_toposp_runs", "s1_nonidentity_perms"},
-		Real:   []string{"internal/graph (woven copy): DFS, KahnSort, Copy, RemoveEdge, StronglyConnected/Cycles, TopoShortestPath, Dijkstra, EdgeToPath"},
+		Probes:    []string{"c20_dfs_runs", "c20_dfs_started_from_equal_value", "c20_dfs_decliner_reported", "c20_kahn_acyclic", "c20_kahn_cyclic_panicked", "c20_scc_multi", "c20_toposp_runs", "s1_nonidentity_perms"},
+		Real:      []string{"internal/graph (woven copy): DFS, KahnSort, Copy, RemoveEdge, StronglyConnected/Cycles, TopoShortestPath, Dijkstra, EdgeToPath"},
 		Simulated: []string{"map iteration order at every range site (S1)", "step/depth budget (S4)", "the DFS callback (S3: declines by a seeded set)"},
 	}
 }
@@ -50,7 +50,7 @@ func (C20) Gen(r *simrt.RNG, tier string) core.Case {
 	switch r.Intn(8) {
 	case 0, 1, 2:
 		c.Mode = "dfs"
-		c.Graph = genGraph(r, 10, r.Chance(1, 4), 5)
+		c.Graph = genGraph(r, 10, r.Chance(1, 4), 5, false)
 		c.Reverse = r.Chance(1, 2)
 		c.Start = r.Intn(c.Graph.N)
 		nd := r.Intn(4)
@@ -59,17 +59,17 @@ func (C20) Gen(r *simrt.RNG, tier string) core.Case {
 		}
 	case 3, 4:
 		c.Mode = "kahn"
-		c.Graph = genGraph(r, 10, r.Chance(2, 3), 5)
+		c.Graph = genGraph(r, 10, r.Chance(2, 3), 5, false)
 		if r.Chance(1, 3) && c.Graph.N > 1 { // plant one back edge
 			a := 1 + r.Intn(c.Graph.N-1)
 			c.Graph.Edges = append(c.Graph.Edges, [3]int{a, r.Intn(a + 1), 1})
 		}
 	case 5:
 		c.Mode = "scc"
-		c.Graph = genGraph(r, 10, false, 5)
+		c.Graph = genGraph(r, 10, false, 5, false)
 	default:
 		c.Mode = "toposp"
-		c.Graph = genGraph(r, 10, true, 20)
+		c.Graph = genGraph(r, 10, true, 20, false)
 		// single root: every vertex j>0 gets an in-edge from a lower vertex
 		m := buildModel(c.Graph)
 		for j := 1; j < c.Graph.N; j++ {
@@ -225,7 +225,13 @@ func (C20) Run(c core.Case, ctx *core.Ctx) []core.Violation {
 			reported := map[int]int{}
 			var dfsErr error
 			if p, class, site, detail := core.Guard(func() {
-				dfsErr = sg.DFS(vs[cc.Start], func(v graphx.Vertex, next func() error) error {
+				// start from a different Go value with the same identity now and then
+				start := vs[cc.Start]
+				if len(cc.Decline)%2 == 1 {
+					start = vertexOf(spec.Kinds[cc.Start], cc.Start, 4242)
+					ctx.St.Inc("c20_dfs_started_from_equal_value")
+				}
+				dfsErr = sg.DFS(start, func(v graphx.Vertex, next func() error) error {
 					id := idOf(graphx.VertexID(v))
 					reported[id]++
 					sim.Event("dfs-report", uint64(id))
@@ -264,7 +270,12 @@ func (C20) Run(c core.Case, ctx *core.Ctx) []core.Violation {
 				}
 			}
 			var L graphx.TopoOrder
-			p, class, site, detail := core.Guard(func() { L = g.KahnSort() })
+			p, class, site, detail := core.Guard(func() {
+				L = g.KahnSort()
+				if cc.Start%2 == 1 {
+					L = g.KahnSort() // sorting works on a copy: a second sort sees the same graph
+				}
+			})
 			if cyclic {
 				if !p {
 					add("kahn-accepted-cycle", "KahnSort", fmt.Sprintf("cyclic graph sorted without panic: %v", pathIDs(L)))
